@@ -282,9 +282,12 @@ class FlagByExactValueProvider(BaseFlagProvider):
             if data < 0 or data > flag_mask:
                 raise OutOfRangeLoadError(0, flag_mask, data)
 
-            # data already has been validated for all edge cases
-            # so enum lookup cannot raise an error
-            return enum(data)
+            # a flag with the strict boundary rejects a value mixing its members with bits
+            # that are named only inside a multi-bit member (e.g. 5 for ``AB = 3; C = 4``)
+            try:
+                return enum(data)
+            except ValueError:
+                raise MsgLoadError("Bad flag value", data) from None
 
         return flag_loader
 
